@@ -83,6 +83,9 @@ func catalogue(w *world, check string) []kase {
 					if len(w.sc.OnlyOps) > 0 && !inList(w.sc.OnlyOps, name) {
 						continue
 					}
+					if len(w.sc.OnlyPaths) > 0 && !inList(w.sc.OnlyPaths, nd.Path) {
+						continue
+					}
 					mut := faults.Mut{Path: nd.Path, Op: name}
 					out = append(out, kase{Scenario: w.sc, Deviator: d, Slot: s, Path: nd.Path, Op: name, Menu: menu,
 						fault: faults.ContentFault(s, mut, ops[name], mode)})
@@ -102,7 +105,7 @@ func catalogue(w *world, check string) []kase {
 				}
 			}
 			// equivocation: a broadcast altered for ONE recipient only (the others receive the original)
-			if check != "C05" && s.Broadcast && len(w.spec.IDs) >= 3 {
+			if check != "C05" && s.Broadcast && len(w.spec.IDs) >= 3 && len(w.sc.OnlyPaths) == 0 {
 				for _, rcp := range w.spec.IDs {
 					if rcp == d {
 						continue
@@ -124,8 +127,8 @@ func catalogue(w *world, check string) []kase {
 			}
 			// whole-message operators
 			for _, mf := range messageOps(w, s, m, check) {
-				if len(w.sc.OnlyOps) > 0 {
-					break // operator-restricted scenario: field operators only
+				if len(w.sc.OnlyOps) > 0 || len(w.sc.OnlyPaths) > 0 {
+					break // operator- or path-restricted scenario: field operators only
 				}
 				out = append(out, kase{Scenario: w.sc, Deviator: d, Slot: s, Path: "<message>", Op: mf.Mut.Op, Menu: menu, fault: mf})
 			}
